@@ -39,6 +39,9 @@ enum PeerAct {
     Reset,
     /// floods of empty frames, then behaves
     EmptyFrames,
+    /// well-behaved until the endpoint's close arrives: then it ends the stream (EOF or reset)
+    /// without sending a close of its own
+    HangUpOnClose,
 }
 
 #[derive(Clone, Copy, Debug, PartialEq)]
@@ -222,6 +225,18 @@ async fn peer_script(peer: &mut Peer, net: &crate::net::NetHandle, act: PeerAct,
                 wire::CLOSE => {
                     rep.saw_close = true;
                     rep.saw_close_error = wire::error_condition(f.perf.as_ref().unwrap().field(0));
+                    if act == PeerAct::HangUpOnClose && !rep.sent_close {
+                        if choice(2) == 0 {
+                            peer.shutdown().await;
+                            sim::fault("hang-up-eof-on-close");
+                        } else {
+                            net.cut_now(CutKind::Reset);
+                            sim::fault("hang-up-reset-on-close");
+                        }
+                        rep.cut = true;
+                        let _ = peer.drain_for(500).await;
+                        return rep;
+                    }
                     if !rep.sent_close && act != PeerAct::Silence {
                         peer.send(0, &peer::close(None)).await;
                         rep.sent_close = true;
@@ -249,9 +264,9 @@ async fn peer_script(peer: &mut Peer, net: &crate::net::NetHandle, act: PeerAct,
         if !acted && tokio::time::Instant::now() >= start + std::time::Duration::from_millis(delay_ms) {
             acted = true;
             match act {
-                PeerAct::Clean | PeerAct::Silence => {
+                PeerAct::Clean | PeerAct::Silence | PeerAct::HangUpOnClose => {
                     rep.silent = act == PeerAct::Silence;
-                    if act == PeerAct::Clean && local_waits {
+                    if act != PeerAct::Silence && local_waits {
                         peer.send(0, &peer::close(None)).await;
                         rep.sent_close = true;
                     }
@@ -324,6 +339,72 @@ async fn peer_closes_instead_of_opening(peer: &mut Peer, with_error: bool) {
     let _ = peer.drain_for(500).await;
 }
 
+/// After a frame in place of its open the peer has been refused with a close carrying an error.
+/// "After closing with an error the endpoint ignores everything until the peer's close": the peer
+/// now sends more frames - none of them a close - and possibly a late open; the endpoint must write
+/// nothing and must not end the stream; then the peer closes and the endpoint lets go.
+/// Returns false after a violation.
+async fn frames_between_refusal_and_close(peer: &mut Peer, side: &str, quiet_ms: u64) -> bool {
+    // wait for the refusal
+    let mut saw_close = false;
+    let mut waited = 0;
+    while waited < 3000 && !peer.eof && !saw_close {
+        saw_close = peer.drain_for(100).await.iter().any(|f| f.code == wire::CLOSE && f.perf.is_some());
+        waited += 100;
+    }
+    if saw_close && !peer.eof && choice(3) != 0 {
+        let k = 1 + choice(3);
+        for _ in 0..k {
+            match choice(5) {
+                0 => peer.send(0, &peer::end(None)).await,
+                1 => peer.send(1, &peer::begin(None, 0, 10, 10)).await,
+                2 => peer.send(0, &peer::attach(&peer::AttachArgs::sender("late", 0))).await,
+                3 => peer.send(0, &peer::flow(&peer::PeerSession::new(0, 0, 10, 10).flow_args())).await,
+                _ => peer.send_empty().await,
+            };
+        }
+        sim::fault("frames-between-refusal-and-peer-close");
+        let wrote = peer.drain_for(quiet_ms).await;
+        if let Some(f) = wrote.iter().find(|f| f.perf.is_some()) {
+            sim::violation(
+                "frame-after-closing-with-error-acted-upon",
+                format!("the {} had refused the connection with a close carrying an error; it answered a later frame of the peer with {}", side, wire::describe_frame(f)),
+            );
+            return false;
+        }
+        if peer.eof || peer.read_error.is_some() {
+            sim::violation(
+                "hung-up-before-the-peers-close",
+                format!("the {} had refused the connection with a close carrying an error and must ignore everything until the peer's close; it ended the stream when {} more frame(s) arrived", side, k),
+            );
+            return false;
+        }
+        if choice(2) == 0 {
+            // the open it had been waiting for, too late
+            peer.send(0, &peer::open("peer-late", None, None, None)).await;
+            let wrote = peer.drain_for(quiet_ms).await;
+            if let Some(f) = wrote.iter().find(|f| f.perf.is_some()) {
+                sim::violation(
+                    "frame-after-closing-with-error-acted-upon",
+                    format!("the {} had refused the connection with a close carrying an error; it answered the late open with {}", side, wire::describe_frame(f)),
+                );
+                return false;
+            }
+            if peer.eof || peer.read_error.is_some() {
+                sim::violation("hung-up-before-the-peers-close", format!("the {} ended the stream when the late open arrived, before the peer's close", side));
+                return false;
+            }
+        }
+        sim::probe("ignored-everything-until-the-peers-close");
+    }
+    if saw_close {
+        peer.send(0, &peer::close(None)).await;
+    }
+    peer.shutdown().await;
+    let _ = peer.drain_for(500).await;
+    true
+}
+
 fn judge_close_instead_of_open(mon: &wire::MonitorRef, d: usize, opened: bool, result: String) {
     if opened {
         sim::violation("close-instead-of-open-accepted", "the peer sent a close where its open was due and the open/accept call succeeded".into());
@@ -353,6 +434,7 @@ fn draw_peer_act() -> PeerAct {
         PeerAct::Eof,
         PeerAct::Reset,
         PeerAct::EmptyFrames,
+        PeerAct::HangUpOnClose,
     ])
 }
 
@@ -425,6 +507,20 @@ fn judge(mon: &wire::MonitorRef, d: usize, pact: PeerAct, lact: LocalAct, out: &
             sim::violation("clean-close-reported-as-error", format!("a clean close exchange initiated by the peer returned {} ({})", api, what));
             return;
         }
+        // a clean result is for a clean close: when the application closed without an error (or only
+        // waited) and the peer wrote no close at all - the stream just ended - the exchange did not take
+        // place and cannot be reported as Ok. (What close_with_error returns when the peer hangs up is
+        // not stated and not judged.)
+        if matches!(judged_as(lact), LocalAct::Close | LocalAct::BeginThenClose | LocalAct::Wait) && m.ends[1 - d].close.is_none() {
+            if out.api_ok {
+                sim::violation(
+                    "unanswered-close-reported-as-clean",
+                    format!("the peer never sent a close (the stream ended: cut={}), yet the call returned {} ({})", rep.cut, api, what),
+                );
+                return;
+            }
+            sim::probe("unanswered-close-reported-as-error");
+        }
         if let Some(cond) = rep.sent_close_error {
             // the peer's error must reach the caller unless the caller's own close completed first
             let mentions = api.contains("ResourceLimitExceeded") || api.contains("resource-limit-exceeded") || api.contains("peer-close-error");
@@ -467,6 +563,35 @@ pub async fn run_client() {
     let mon = wire::install(&net, ["client", "peer"], [models(), Models::none()]);
     let mut peer = Peer::new("peer", ps);
     let peer_open = peer::open("peer", Some(pick(&[65536u32, 512])), Some(255), if heartbeat { Some(pick(&[300u32, 2000])) } else { None });
+    if choice(12) == 1 {
+        // a begin where the peer's open is due: the client must refuse (close with an error), must not
+        // act on the begin, and must ignore what follows until the peer's close
+        sim::fault("frame-before-open");
+        let quiet = if ccfg.idle_time_out.is_some() { 50 } else { pick(&[100u64, 700]) };
+        let hs = async {
+            let _ = peer.expect_header().await;
+            peer.send_header(AMQP_HEADER).await;
+            peer.send(0, &peer::begin(None, 0, 10, 10)).await;
+            frames_between_refusal_and_close(&mut peer, "client", quiet).await;
+        };
+        let (c, _) = match sim::op("open", world::join2(sim::in_group(1, world::client_open(&ccfg, cs)), hs)).await {
+            Some(x) => x,
+            None => return,
+        };
+        if sim::has_violation() {
+            return;
+        }
+        if c.is_ok() {
+            sim::violation("frame-before-open-accepted", "the client's open succeeded although the peer's first frame was a begin".into());
+            return;
+        }
+        let mut m = mon.borrow_mut();
+        m.sync();
+        if m.ends[0].close.is_some() && m.ends[0].close_error().is_none() {
+            sim::violation("illegal-frame-closed-without-error", "a begin arrived where the peer's open was due; the client closed the connection without an error condition".into());
+        }
+        return;
+    }
     if choice(10) == 1 {
         sim::fault("close-instead-of-open");
         let with_error = choice(2) == 1;
@@ -563,19 +688,18 @@ pub async fn run_listener() {
         let hs = async {
             peer.send_header(AMQP_HEADER).await;
             peer.send(0, &peer::begin(None, 0, 10, 10)).await;
-            // whatever the listener does, answer a close and end the stream
-            for f in peer.drain_for(2000).await {
-                if f.code == wire::CLOSE && f.perf.is_some() {
-                    peer.send(0, &peer::close(None)).await;
-                }
-            }
-            peer.shutdown().await;
-            let _ = peer.drain_for(500).await;
+            // whatever the listener does, answer a close and end the stream - after some more frames
+            // that a listener which has closed with an error must ignore
+            let quiet = if lcfg.idle_time_out.is_some() { 50 } else { pick(&[100u64, 700]) };
+            frames_between_refusal_and_close(&mut peer, "listener", quiet).await;
         };
         let (l, _) = match sim::op("accept", world::join2(sim::in_group(2, acceptor.accept(ls)), hs)).await {
             Some(x) => x,
             None => return,
         };
+        if sim::has_violation() {
+            return;
+        }
         if l.is_ok() {
             sim::violation("frame-before-open-accepted", "the listener accepted a connection whose first frame was a begin".into());
             return;
